@@ -51,6 +51,7 @@ type oresp struct {
 	Cuts     []int    // the wire bytes are written in pieces cut at these offsets (sorted)
 	GapMs    int      // pause between the pieces (0 = none); used by the timing scenarios
 	KeepOpen bool     // origin keeps its connection open after this response (false: closes when Framing == "close")
+	Break     string  // "chunk-size": after the chunks a malformed chunk-size line follows instead of the last chunk; "gzip": the gzip stream (solicited) is corrupt in the middle
 	onRequest func()  // called by the origin when the request for this response arrives (not part of the replay format)
 	Raw      []string // timing scenarios: the exact pieces the origin writes, GapMs apart (overrides everything else)
 	RawClose bool     // close the origin connection after the raw pieces
@@ -100,6 +101,12 @@ func (o *originSrv) wire(r *oresp, gz bool) []byte {
 		zw.Write(body)
 		zw.Close()
 		body = zb.Bytes()
+		if r.Break == "gzip" && len(body) > 24 {
+			body = append([]byte(nil), body...)
+			for i := len(body) / 2; i < len(body)/2+6; i++ {
+				body[i] ^= 0xff
+			}
+		}
 		sb.WriteString("Content-Encoding: gzip\r\n")
 	}
 	if r.Declare && len(r.Trailers) > 0 {
@@ -121,6 +128,10 @@ func (o *originSrv) wire(r *oresp, gz bool) []byte {
 			sb.Write(body[off : off+n])
 			sb.WriteString("\r\n")
 			off += n
+		}
+		if r.Break == "chunk-size" {
+			sb.WriteString("zz\r\nnot a chunk\r\n")
+			return sb.Bytes()
 		}
 		sb.WriteString("0\r\n")
 		for _, t := range r.Trailers {
@@ -787,6 +798,18 @@ func corpus() []ecaseJ {
 		{Class: "response-written-while-shutting-down", Shutdown: 400, Exchs: []exchJ{
 			{get("HTTP/1.1"), oresp{Raw: []string{"", "HTTP/1.1 200 OK\r\nTransfer-Encoding: chunked\r\n\r\n5\r\nhello\r\n0\r\n\r\n"}, GapMs: 400, Proto: "HTTP/1.1", Code: 200, Reason: "OK", Framing: "chunked", Body: "hello", Chunks: []int{5}, HeadCL: -1}},
 			{get("HTTP/1.1"), plain}}},
+		{Class: "origin-body-breaks-after-head:chunk-size-line", Exchs: []exchJ{{get("HTTP/1.1"), plain},
+			{get("HTTP/1.1"), oresp{Proto: "HTTP/1.1", Code: 200, Reason: "OK", Framing: "chunked", Body: "hello world", Chunks: []int{5, 6}, Break: "chunk-size", HeadCL: -1, KeepOpen: true}},
+			{get("HTTP/1.1"), plain}}},
+		{Class: "origin-body-breaks-after-head:chunk-size-line", Pipeline: true, Exchs: []exchJ{
+			{get("HTTP/1.1"), oresp{Proto: "HTTP/1.1", Code: 200, Reason: "OK", Framing: "chunked", Body: "hello", Chunks: []int{5}, Break: "chunk-size", HeadCL: -1, KeepOpen: true}},
+			{get("HTTP/1.1"), plain}}},
+		{Class: "origin-body-breaks-after-head:corrupt-solicited-gzip", Exchs: []exchJ{
+			{get("HTTP/1.1"), oresp{Proto: "HTTP/1.1", Code: 200, Reason: "OK", Framing: "cl", Body: strings.Repeat("some compressible text, ", 400), Gzip: true, Break: "gzip", HeadCL: -1, KeepOpen: true}},
+			{get("HTTP/1.1"), plain}}},
+		{Class: "origin-body-breaks-after-head:corrupt-solicited-gzip", Pipeline: true, Exchs: []exchJ{
+			{get("HTTP/1.1"), oresp{Proto: "HTTP/1.1", Code: 200, Reason: "OK", Framing: "cl", Body: strings.Repeat("some compressible text, ", 400), Gzip: true, Break: "gzip", HeadCL: -1, KeepOpen: true}},
+			{get("HTTP/1.1"), plain}}},
 		{Class: "chunked-with-trailers", Exchs: []exchJ{{get("HTTP/1.1"), chTr}, {get("HTTP/1.1"), plain}, {xreq{Method: "HEAD", Proto: "HTTP/1.1"}, plain}, {get("HTTP/1.1"), ch}}},
 	}...)
 }
@@ -953,8 +976,9 @@ func renderE2E(c ecaseJ, res connResult, snaps []snapshot, sawAE []string, relax
 			coqfmt.StrList(order), expected(x, strings.Contains(sawAE[i], "gzip"), relax304, c.Handler)))
 	}
 	v11 := c.Exchs[0].Req.Proto == "HTTP/1.1"
-	return fmt.Sprintf("{| e_v11 := %s; e_want := %d; e_exchs := %s; e_stream := %s; e_closed := %s |}", coqfmt.Bool(v11), len(c.Exchs),
-		coqfmt.List("exch", parts), cstr(string(res.Stream)), coqfmt.Bool(res.Closed))
+	broken := res.Done < len(c.Exchs) && c.Exchs[res.Done].Resp.Break != ""
+	return fmt.Sprintf("{| e_v11 := %s; e_want := %d; e_exchs := %s; e_stream := %s; e_closed := %s; e_broken := %s |}", coqfmt.Bool(v11), len(c.Exchs),
+		coqfmt.List("exch", parts), cstr(string(res.Stream)), coqfmt.Bool(res.Closed), coqfmt.Bool(broken))
 }
 
 // ---------------------------------------------------------------- driver
